@@ -275,3 +275,662 @@ pub proof fn lemma_lex_doc(d: DocM)
     assert(tokens_of(S0(), doc_text(d) + e) == doc_toks(d) + tokens_of(S0(), e));
     assert(doc_toks(d) + tokens_of(S0(), e) =~= doc_toks(d));
 }
+
+// ---- the tree ----------------------------------------------------------------------------------------------------------
+pub open spec fn leaves(ts: Seq<Tok>) -> Seq<Tree> { ts.map_values(|t: Tok| leaf(t)) }
+pub open spec fn entry_tree(f: FieldM) -> Tree { node(ENTRY, leaves(entry_toks(f))) }
+pub open spec fn field_elems(f: FieldM) -> Seq<Tree> { leaves(comments_toks(f.comments)).push(entry_tree(f)) }
+pub open spec fn fields_elems(fs: Seq<FieldM>) -> Seq<Tree>
+    decreases fs.len()
+{
+    if fs.len() == 0 { Seq::empty() } else { field_elems(fs[0]) + fields_elems(fs.skip(1)) }
+}
+pub open spec fn para_tree(p: ParaM) -> Tree { node(PARAGRAPH, fields_elems(p.fields) + leaves(comments_toks(p.trailing))) }
+pub open spec fn gap_line_tree(g: Option<Seq<char>>) -> Tree { node(EMPTY_LINE, leaves(gap_line_toks(g))) }
+pub open spec fn gap_trees(g: Seq<Option<Seq<char>>>) -> Seq<Tree>
+    decreases g.len()
+{
+    if g.len() == 0 { Seq::empty() } else { seq![gap_line_tree(g[0])] + gap_trees(g.skip(1)) }
+}
+pub open spec fn paras_trees(ps: Seq<ParaM>) -> Seq<Tree>
+    decreases ps.len()
+{
+    if ps.len() == 0 { Seq::empty() } else { (seq![para_tree(ps[0])] + gap_trees(ps[0].gap)) + paras_trees(ps.skip(1)) }
+}
+pub open spec fn doc_tree(d: DocM) -> Tree { node(ROOT, gap_trees(d.lead) + paras_trees(d.paras)) }
+
+pub proof fn lemma_leaves_add(a: Seq<Tok>, b: Seq<Tok>)
+    ensures leaves(a + b) == leaves(a) + leaves(b)
+{
+    assert(leaves(a + b) =~= leaves(a) + leaves(b));
+}
+
+// ---- parsing the tokens ---------------------------------------------------------------------------------------------
+/// the next token does not continue an entry
+pub open spec fn not_indent(t: Seq<Tok>) -> bool { t.len() == 0 || t[0].0 != INDENT }
+/// the next token ends a paragraph
+pub open spec fn para_end(t: Seq<Tok>) -> bool { t.len() == 0 || t[0].0 == NEWLINE }
+
+pub proof fn lemma_parse_comments(cs: Seq<Seq<char>>, t: Seq<Tok>)
+    ensures
+        p_entry_comments(comments_toks(cs) + t).0 == leaves(comments_toks(cs)) + p_entry_comments(t).0,
+        p_entry_comments(comments_toks(cs) + t).1 == p_entry_comments(t).1,
+        p_entry_comments(comments_toks(cs) + t).2 == p_entry_comments(t).2,
+        p_entry_comments(comments_toks(cs) + t).3 == p_entry_comments(t).3,
+    decreases cs.len()
+{
+    if cs.len() == 0 {
+        assert(comments_toks(cs) + t =~= t);
+        assert(leaves(comments_toks(cs)) + p_entry_comments(t).0 =~= p_entry_comments(t).0);
+    } else {
+        let rest = comments_toks(cs.skip(1)) + t;
+        let ts = comments_toks(cs) + t;
+        lemma_parse_comments(cs.skip(1), t);
+        assert(ts =~= comment_toks2(cs[0]) + rest);
+        assert(ts[0] == (COMMENT, cs[0]));
+        let t1 = ts.skip(1);
+        assert(t1[0] == (NEWLINE, lf()));
+        assert(t1.skip(1) =~= rest);
+        lemma_leaves_add(comment_toks2(cs[0]), comments_toks(cs.skip(1)));
+        assert(leaves(comment_toks2(cs[0])) =~= seq![leaf(ts[0]), leaf(t1[0])]);
+        assert(leaves(comments_toks(cs)) + p_entry_comments(t).0 =~= seq![leaf(ts[0]), leaf(t1[0])] + (leaves(comments_toks(cs.skip(1))) + p_entry_comments(t).0));
+    }
+}
+/// value lines: an optional VALUE, NEWLINE, then the continuation lines
+pub proof fn lemma_parse_lines(v: Seq<Tok>, ks: Seq<ContM>, t: Seq<Tok>)
+    requires not_indent(t), v.len() == 0 || (v.len() == 1 && v[0].0 == VALUE)
+    ensures p_lines(v + seq![(NEWLINE, lf())] + conts_toks(ks) + t) == (leaves(v + seq![(NEWLINE, lf())] + conts_toks(ks)), t, 0nat)
+    decreases ks.len()
+{
+    let nl = seq![(NEWLINE, lf())];
+    let ts = v + nl + conts_toks(ks) + t;
+    let after = nl + (conts_toks(ks) + t);
+    // the value run
+    assert(ts =~= v + after);
+    assert(after[0].0 == NEWLINE);
+    if v.len() == 1 {
+        assert(ts[0] == v[0]);
+        assert(ts.skip(1) =~= after);
+        assert(p_value_run(after) == (Seq::<Tree>::empty(), after));
+        assert(p_value_run(ts) == (seq![leaf(v[0])] + Seq::<Tree>::empty(), after));
+        assert(leaves(v) =~= seq![leaf(v[0])] + Seq::<Tree>::empty());
+    } else {
+        assert(ts =~= after);
+        assert(leaves(v) =~= Seq::<Tree>::empty());
+    }
+    assert(p_value_run(ts) == (leaves(v), after));
+    let t2 = after.skip(1);
+    assert(t2 =~= conts_toks(ks) + t);
+    if ks.len() == 0 {
+        assert(t2 =~= t);
+        assert(leaves(v + nl + conts_toks(ks)) =~= leaves(v) + seq![leaf(after[0])]);
+    } else {
+        let k = ks[0];
+        let rest = conts_toks(ks.skip(1)) + t;
+        assert(t2 =~= cont_toks3(k) + rest);
+        assert(t2[0] == (INDENT, k.indent));
+        let t3 = t2.skip(1);
+        assert(t3[0] == (VALUE, k.text));
+        assert(p_skip_ws(t3) == (Seq::<Tree>::empty(), t3));
+        let v2 = seq![(VALUE, k.text)];
+        assert(t3 =~= v2 + nl + conts_toks(ks.skip(1)) + t);
+        lemma_parse_lines(v2, ks.skip(1), t);
+        let r = p_lines(t3);
+        assert(t3.len() < ts.len());
+        assert(p_lines(ts) == (leaves(v) + seq![leaf(after[0]), leaf(t2[0])] + Seq::<Tree>::empty() + r.0, r.1, 0 + r.2));
+        assert(leaves(v + nl + conts_toks(ks)) =~= leaves(v) + seq![leaf(after[0]), leaf(t2[0])] + Seq::<Tree>::empty() + leaves(v2 + nl + conts_toks(ks.skip(1))));
+    }
+}
+pub proof fn lemma_parse_entry(f: FieldM, t: Seq<Tok>)
+    requires not_indent(t), f.name.len() > 0
+    ensures p_entry(field_toks(f) + t) == (field_elems(f), t, 0nat)
+{
+    let nl = seq![(NEWLINE, lf())];
+    let et = entry_toks(f) + t;
+    lemma_parse_comments(f.comments, et);
+    assert(field_toks(f) + t =~= comments_toks(f.comments) + et);
+    assert(et[0] == (KEY, f.name));
+    assert(p_entry_comments(et) == (Seq::<Tree>::empty(), et, 0nat, false));
+    let c = p_entry_comments(field_toks(f) + t);
+    assert(c.0 =~= leaves(comments_toks(f.comments)));
+    assert(c.1 == et);
+    // key
+    let e1 = et.skip(1);
+    assert(e1[0] == (COLON, colon()));
+    assert(p_skip_ws(e1) == (Seq::<Tree>::empty(), e1));
+    let k = p_expect(et, KEY);
+    assert(k.0 =~= seq![leaf(et[0])] && k.1 == e1 && k.2 == 0);
+    // colon and the whitespace after it
+    let e2 = e1.skip(1);
+    let vt = opt_tok(VALUE, f.first);
+    let tail = vt + nl + conts_toks(f.conts) + t;
+    assert(e2 =~= opt_tok(WHITESPACE, f.ws) + tail);
+    assert(tail[0].0 == VALUE || tail[0].0 == NEWLINE);
+    assert(p_skip_ws(tail) == (Seq::<Tree>::empty(), tail));
+    if f.ws.len() > 0 {
+        assert(e2[0] == (WHITESPACE, f.ws));
+        assert(e2.skip(1) =~= tail);
+        assert(p_skip_ws(e2) == (seq![leaf(e2[0])] + Seq::<Tree>::empty(), tail));
+    } else {
+        assert(e2 =~= tail);
+    }
+    let co = p_expect(e1, COLON);
+    assert(co.0 =~= seq![leaf(e1[0])] + leaves(opt_tok(WHITESPACE, f.ws)));
+    assert(co.1 == tail && co.2 == 0);
+    // the value lines
+    lemma_parse_lines(vt, f.conts, t);
+    let l = p_lines(tail);
+    assert(l == (leaves(vt + nl + conts_toks(f.conts)), t, 0nat));
+    assert(k.0 + co.0 + l.0 =~= leaves(entry_toks(f))) by {
+        assert(entry_toks(f) =~= seq![(KEY, f.name), (COLON, colon())] + opt_tok(WHITESPACE, f.ws) + (vt + nl + conts_toks(f.conts)));
+    }
+}
+pub proof fn lemma_parse_fields(fs: Seq<FieldM>, tr: Seq<Seq<char>>, t: Seq<Tok>)
+    requires para_end(t), forall|i: int| 0 <= i < fs.len() ==> (#[trigger] fs[i]).name.len() > 0
+    ensures p_entries(fields_toks(fs) + comments_toks(tr) + t) == (fields_elems(fs) + leaves(comments_toks(tr)), t, 0nat)
+    decreases fs.len()
+{
+    let ts = fields_toks(fs) + comments_toks(tr) + t;
+    if fs.len() == 0 {
+        assert(ts =~= comments_toks(tr) + t);
+        assert(fields_elems(fs) + leaves(comments_toks(tr)) =~= leaves(comments_toks(tr)));
+        assert(p_entry_comments(t) == (Seq::<Tree>::empty(), t, 0nat, false));
+        if tr.len() == 0 {
+            assert(comments_toks(tr) + t =~= t);
+            assert(leaves(comments_toks(tr)) =~= Seq::<Tree>::empty());
+        } else {
+            assert(ts[0] == (COMMENT, tr[0])) by { assert(comments_toks(tr) =~= comment_toks2(tr[0]) + comments_toks(tr.skip(1))); }
+            lemma_parse_comments(tr, t);
+            let c = p_entry_comments(ts);
+            assert(c.0 =~= leaves(comments_toks(tr)));
+            assert(p_entry(ts) == (c.0, t, 0nat));
+            assert(p_entries(t) == (Seq::<Tree>::empty(), t, 0nat));
+            assert(t.len() < ts.len());
+            assert(c.0 + Seq::<Tree>::empty() =~= c.0);
+        }
+    } else {
+        let f = fs[0];
+        let rest = fields_toks(fs.skip(1)) + comments_toks(tr) + t;
+        assert(ts =~= field_toks(f) + rest);
+        // the next token after a field is a COMMENT, a KEY, a NEWLINE or the end: never INDENT
+        assert(not_indent(rest)) by {
+            if fs.len() > 1 {
+                let g = fs[1];
+                assert(fields_toks(fs.skip(1)) =~= field_toks(g) + fields_toks(fs.skip(1).skip(1)));
+                if g.comments.len() > 0 { assert(comments_toks(g.comments) =~= comment_toks2(g.comments[0]) + comments_toks(g.comments.skip(1))); assert(rest[0].0 == COMMENT); }
+                else { assert(comments_toks(g.comments) =~= Seq::<Tok>::empty()); assert(rest[0].0 == KEY); }
+            } else {
+                assert(fields_toks(fs.skip(1)) =~= Seq::<Tok>::empty());
+                if tr.len() > 0 { assert(comments_toks(tr) =~= comment_toks2(tr[0]) + comments_toks(tr.skip(1))); assert(rest[0].0 == COMMENT); }
+                else { assert(comments_toks(tr) =~= Seq::<Tok>::empty()); assert(rest =~= t); }
+            }
+        }
+        lemma_parse_entry(f, rest);
+        assert forall|i: int| 0 <= i < fs.skip(1).len() implies (#[trigger] fs.skip(1)[i]).name.len() > 0 by { assert(fs.skip(1)[i] == fs[i + 1]); }
+        lemma_parse_fields(fs.skip(1), tr, t);
+        // the first token of a field is a COMMENT or its KEY
+        assert(ts.len() > 0 && ts[0].0 != NEWLINE) by {
+            if f.comments.len() > 0 { assert(comments_toks(f.comments) =~= comment_toks2(f.comments[0]) + comments_toks(f.comments.skip(1))); assert(ts[0].0 == COMMENT); }
+            else { assert(comments_toks(f.comments) =~= Seq::<Tok>::empty()); assert(ts[0].0 == KEY); }
+        }
+        assert(rest.len() < ts.len());
+        assert(field_elems(f) + (fields_elems(fs.skip(1)) + leaves(comments_toks(tr))) =~= fields_elems(fs) + leaves(comments_toks(tr)));
+    }
+}
+pub proof fn lemma_parse_gap(g: Seq<Option<Seq<char>>>, t: Seq<Tok>)
+    requires !starts_blank(t)
+    ensures p_skip_ws_nl(gap_toks(g) + t) == (gap_trees(g), t)
+    decreases g.len()
+{
+    let ts = gap_toks(g) + t;
+    if g.len() == 0 {
+        assert(ts =~= t);
+    } else {
+        let rest = gap_toks(g.skip(1)) + t;
+        lemma_parse_gap(g.skip(1), t);
+        assert(ts =~= gap_line_toks(g[0]) + rest);
+        match g[0] {
+            None => {
+                assert(ts[0] == (NEWLINE, lf()));
+                assert(ts.skip(1) =~= rest);
+                assert(p_line_rest(ts) == (Seq::<Tree>::empty(), ts));
+                assert(leaves(gap_line_toks(g[0])) =~= Seq::<Tree>::empty().push(leaf(ts[0])));
+                assert(p_empty_line(ts) == (gap_line_tree(g[0]), rest));
+            }
+            Some(c) => {
+                assert(ts[0] == (COMMENT, c));
+                let t1 = ts.skip(1);
+                assert(t1[0] == (NEWLINE, lf()));
+                assert(t1.skip(1) =~= rest);
+                assert(p_line_rest(t1) == (Seq::<Tree>::empty(), t1));
+                assert(p_line_rest(ts) == (seq![leaf(ts[0])] + Seq::<Tree>::empty(), t1));
+                assert(leaves(gap_line_toks(g[0])) =~= (seq![leaf(ts[0])] + Seq::<Tree>::empty()).push(leaf(t1[0])));
+                assert(p_empty_line(ts) == (gap_line_tree(g[0]), rest));
+            }
+        }
+        assert(starts_blank(ts));
+        assert(rest.len() < ts.len());
+    }
+}
+/// the first token of a paragraph is the KEY of its first field
+pub proof fn lemma_para_head(p: ParaM, t: Seq<Tok>)
+    requires wf_para(p)
+    ensures (para_toks(p) + t).len() > 0, (para_toks(p) + t)[0].0 == KEY
+{
+    let f = p.fields[0];
+    assert(comments_toks(f.comments) =~= Seq::<Tok>::empty());
+    assert(fields_toks(p.fields) =~= field_toks(f) + fields_toks(p.fields.skip(1)));
+    assert(field_toks(f)[0] == (KEY, f.name));
+}
+pub proof fn lemma_parse_items(g: Seq<Option<Seq<char>>>, ps: Seq<ParaM>)
+    requires wf_paras(ps)
+    ensures p_items(gap_toks(g) + paras_toks(ps)) == (gap_trees(g) + paras_trees(ps), 0nat)
+    decreases ps.len()
+{
+    let ts = gap_toks(g) + paras_toks(ps);
+    if ps.len() == 0 {
+        assert(ts =~= gap_toks(g) + Seq::<Tok>::empty());
+        lemma_parse_gap(g, Seq::<Tok>::empty());
+        assert(gap_trees(g) + paras_trees(ps) =~= gap_trees(g));
+        if ts.len() == 0 {
+            assert(g.len() == 0) by { if g.len() > 0 { assert(gap_toks(g) =~= gap_line_toks(g[0]) + gap_toks(g.skip(1))); } }
+        }
+    } else {
+        let p = ps[0];
+        let pt = paras_toks(ps);
+        lemma_para_head(p, paras_toks(ps.skip(1)));
+        assert(pt =~= para_toks(p) + paras_toks(ps.skip(1)));
+        assert(!starts_blank(pt));
+        lemma_parse_gap(g, pt);
+        let after = gap_toks(p.gap) + paras_toks(ps.skip(1));
+        assert(pt =~= fields_toks(p.fields) + comments_toks(p.trailing) + after);
+        assert(para_end(after)) by {
+            if p.gap.len() > 0 { assert(gap_toks(p.gap) =~= gap_line_toks(p.gap[0]) + gap_toks(p.gap.skip(1))); assert(after[0].0 == NEWLINE); }
+            else { assert(ps.len() == 1); assert(paras_toks(ps.skip(1)) =~= Seq::<Tok>::empty()); assert(gap_toks(p.gap) =~= Seq::<Tok>::empty()); assert(after.len() == 0); }
+        }
+        assert forall|i: int| 0 <= i < p.fields.len() implies (#[trigger] p.fields[i]).name.len() > 0 by { assert(wf_field(p.fields[i])); }
+        lemma_parse_fields(p.fields, p.trailing, after);
+        assert(p_paragraph(pt) == (para_tree(p), after, 0nat));
+        lemma_parse_items(p.gap, ps.skip(1));
+        assert(ts.len() > 0);
+        assert(after.len() < ts.len());
+        assert(gap_trees(g).push(para_tree(p)) + (gap_trees(p.gap) + paras_trees(ps.skip(1))) =~= gap_trees(g) + paras_trees(ps));
+    }
+}
+/// the strict reader accepts a well-formed document and builds exactly doc_tree
+pub proof fn lemma_parse_doc(d: DocM)
+    requires wf_doc(d)
+    ensures parse_text(doc_text(d)) == (doc_tree(d), 0nat)
+{
+    lemma_lex_doc(d);
+    lemma_parse_items(d.lead, d.paras);
+}
+
+/// the domain is inhabited (non-vacuity witness for the theorems below)
+pub proof fn lemma_wf_doc_inhabited()
+    ensures exists|d: DocM| wf_doc(d) && d.paras.len() == 1 && d.lead.len() == 2 && d.paras[0].fields[0].conts.len() == 1
+{
+    let f = FieldM { comments: Seq::empty(), name: seq!['A'], ws: seq![' '], first: seq!['b'], conts: seq![ContM { indent: seq![' '], text: seq!['c'] }] };
+    let p = ParaM { fields: seq![f], trailing: seq![seq!['#', 'x']], gap: seq![None, Some(seq!['#'])] };
+    let d = DocM { lead: seq![Some(seq!['#', 'y']), None], paras: seq![p] };
+    assert(wf_field(f));
+    assert(wf_para(p));
+    assert(seq![p].skip(1) =~= Seq::<ParaM>::empty());
+    assert(wf_paras(seq![p].skip(1)));
+    assert(wf_paras(seq![p]));
+    assert(wf_doc(d));
+}
+
+// ---- what the accessors see in that tree ------------------------------------------------------------------------------
+pub open spec fn all_nodes(ts: Seq<Tree>) -> bool { forall|i: int| 0 <= i < ts.len() ==> (#[trigger] ts[i]) is Node }
+pub open spec fn all_toks(ts: Seq<Tree>) -> bool { forall|i: int| 0 <= i < ts.len() ==> (#[trigger] ts[i]) is Tok }
+
+pub proof fn lemma_child_nodes_add(a: Seq<Tree>, b: Seq<Tree>)
+    ensures rowan::child_nodes(a + b) == rowan::child_nodes(a) + rowan::child_nodes(b)
+    decreases b.len()
+{
+    if b.len() == 0 {
+        assert(a + b =~= a);
+        assert(rowan::child_nodes(a) + rowan::child_nodes(b) =~= rowan::child_nodes(a));
+    } else {
+        lemma_child_nodes_add(a, b.drop_last());
+        assert((a + b).drop_last() =~= a + b.drop_last());
+        assert((a + b).last() == b.last());
+        assert(rowan::child_nodes(a + b) =~= rowan::child_nodes(a) + rowan::child_nodes(b));
+    }
+}
+pub proof fn lemma_child_toks_add(a: Seq<Tree>, b: Seq<Tree>)
+    ensures child_toks(a + b) == child_toks(a) + child_toks(b)
+    decreases b.len()
+{
+    if b.len() == 0 {
+        assert(a + b =~= a);
+        assert(child_toks(a) + child_toks(b) =~= child_toks(a));
+    } else {
+        lemma_child_toks_add(a, b.drop_last());
+        assert((a + b).drop_last() =~= a + b.drop_last());
+        assert((a + b).last() == b.last());
+        assert(child_toks(a + b) =~= child_toks(a) + child_toks(b));
+    }
+}
+pub proof fn lemma_kind_filter_add(a: Seq<Tree>, b: Seq<Tree>, k: SyntaxKind)
+    ensures kind_filter(a + b, k) == kind_filter(a, k) + kind_filter(b, k)
+    decreases b.len()
+{
+    if b.len() == 0 {
+        assert(a + b =~= a);
+        assert(kind_filter(a, k) + kind_filter(b, k) =~= kind_filter(a, k));
+    } else {
+        lemma_kind_filter_add(a, b.drop_last(), k);
+        assert((a + b).drop_last() =~= a + b.drop_last());
+        assert((a + b).last() == b.last());
+        assert(kind_filter(a + b, k) =~= kind_filter(a, k) + kind_filter(b, k));
+    }
+}
+pub proof fn lemma_child_nodes_of_nodes(ts: Seq<Tree>)
+    requires all_nodes(ts)
+    ensures rowan::child_nodes(ts) == ts, child_toks(ts) == Seq::<Tree>::empty()
+    decreases ts.len()
+{
+    if ts.len() > 0 {
+        assert forall|i: int| 0 <= i < ts.drop_last().len() implies (#[trigger] ts.drop_last()[i]) is Node by { assert(ts.drop_last()[i] == ts[i]); }
+        lemma_child_nodes_of_nodes(ts.drop_last());
+        assert(ts.last() is Node);
+        assert(rowan::child_nodes(ts) =~= ts);
+    } else {
+        assert(rowan::child_nodes(ts) =~= ts);
+    }
+}
+pub proof fn lemma_child_nodes_of_toks(ts: Seq<Tree>)
+    requires all_toks(ts)
+    ensures rowan::child_nodes(ts) == Seq::<Tree>::empty(), child_toks(ts) == ts
+    decreases ts.len()
+{
+    if ts.len() > 0 {
+        assert forall|i: int| 0 <= i < ts.drop_last().len() implies (#[trigger] ts.drop_last()[i]) is Tok by { assert(ts.drop_last()[i] == ts[i]); }
+        lemma_child_nodes_of_toks(ts.drop_last());
+        assert(ts.last() is Tok);
+        assert(child_toks(ts) =~= ts);
+    } else {
+        assert(child_toks(ts) =~= ts);
+    }
+}
+/// filtering by a kind none / all of the elements have
+pub proof fn lemma_kind_filter_none(ts: Seq<Tree>, k: SyntaxKind)
+    requires forall|i: int| 0 <= i < ts.len() ==> rowan::tree_kind(#[trigger] ts[i]) != k
+    ensures kind_filter(ts, k) == Seq::<Tree>::empty()
+    decreases ts.len()
+{
+    if ts.len() > 0 {
+        assert forall|i: int| 0 <= i < ts.drop_last().len() implies rowan::tree_kind(#[trigger] ts.drop_last()[i]) != k by { assert(ts.drop_last()[i] == ts[i]); }
+        lemma_kind_filter_none(ts.drop_last(), k);
+        assert(rowan::tree_kind(ts.last()) != k);
+    }
+}
+pub proof fn lemma_kind_filter_all(ts: Seq<Tree>, k: SyntaxKind)
+    requires forall|i: int| 0 <= i < ts.len() ==> rowan::tree_kind(#[trigger] ts[i]) == k
+    ensures kind_filter(ts, k) == ts
+    decreases ts.len()
+{
+    if ts.len() > 0 {
+        assert forall|i: int| 0 <= i < ts.drop_last().len() implies rowan::tree_kind(#[trigger] ts.drop_last()[i]) == k by { assert(ts.drop_last()[i] == ts[i]); }
+        lemma_kind_filter_all(ts.drop_last(), k);
+        assert(rowan::tree_kind(ts.last()) == k);
+        assert(kind_filter(ts, k) =~= ts);
+    } else {
+        assert(kind_filter(ts, k) =~= ts);
+    }
+}
+
+// ---- an entry ----
+pub proof fn lemma_conts_values(ks: Seq<ContM>)
+    ensures texts(kind_filter(leaves(conts_toks(ks)), VALUE)) == cont_texts(ks)
+    decreases ks.len()
+{
+    if ks.len() == 0 {
+        assert(leaves(conts_toks(ks)) =~= Seq::<Tree>::empty());
+        assert(texts(kind_filter(leaves(conts_toks(ks)), VALUE)) =~= cont_texts(ks));
+    } else {
+        lemma_conts_values(ks.skip(1));
+        let k = ks[0];
+        lemma_leaves_add(cont_toks3(k), conts_toks(ks.skip(1)));
+        lemma_kind_filter_add(leaves(cont_toks3(k)), leaves(conts_toks(ks.skip(1))), VALUE);
+        let l3 = leaves(cont_toks3(k));
+        assert(l3 =~= seq![leaf((INDENT, k.indent)), leaf((VALUE, k.text)), leaf((NEWLINE, lf()))]);
+        lemma_kind3(leaf((INDENT, k.indent)), leaf((VALUE, k.text)), leaf((NEWLINE, lf())));
+        assert(kind_filter(l3, VALUE) =~= seq![leaf((VALUE, k.text))]);
+        assert(texts(seq![leaf((VALUE, k.text))] + kind_filter(leaves(conts_toks(ks.skip(1))), VALUE))
+            =~= seq![k.text] + texts(kind_filter(leaves(conts_toks(ks.skip(1))), VALUE)));
+        assert(cont_texts(ks) =~= seq![k.text] + cont_texts(ks.skip(1)));
+    }
+}
+/// kind_filter on a three-element list whose middle element only is a VALUE
+pub proof fn lemma_kind3(a: Tree, b: Tree, c: Tree)
+    requires rowan::tree_kind(a) != VALUE, rowan::tree_kind(b) == VALUE, rowan::tree_kind(c) != VALUE
+    ensures kind_filter(seq![a, b, c], VALUE) == seq![b]
+{
+    let s3 = seq![a, b, c];
+    let s2 = s3.drop_last();
+    let s1 = s2.drop_last();
+    let s0 = s1.drop_last();
+    assert(s0 =~= Seq::<Tree>::empty());
+    assert(kind_filter(s0, VALUE) =~= Seq::<Tree>::empty());
+    assert(s1.last() == a);
+    assert(kind_filter(s1, VALUE) =~= Seq::<Tree>::empty());
+    assert(s2.last() == b);
+    assert(kind_filter(s2, VALUE) =~= seq![b]);
+    assert(s3.last() == c);
+    assert(kind_filter(s3, VALUE) =~= seq![b]);
+}
+pub proof fn lemma_kind_filter_single(a: Tree, k: SyntaxKind)
+    ensures kind_filter(seq![a], k) == if rowan::tree_kind(a) == k { seq![a] } else { Seq::<Tree>::empty() }
+{
+    let s = seq![a];
+    assert(s.drop_last() =~= Seq::<Tree>::empty());
+    assert(kind_filter(s.drop_last(), k) =~= Seq::<Tree>::empty());
+    assert(s.last() == a);
+    if rowan::tree_kind(a) == k { assert(kind_filter(s, k) =~= seq![a]); } else { assert(kind_filter(s, k) =~= Seq::<Tree>::empty()); }
+}
+pub proof fn lemma_entry_tree(f: FieldM)
+    ensures
+        rowan::tree_kind(entry_tree(f)) == ENTRY,
+        t_key(entry_tree(f)) == Some(f.name),
+        t_value(entry_tree(f)) == field_value(f),
+{
+    let ts = entry_toks(f);
+    let ls = leaves(ts);
+    assert(all_toks(ls));
+    lemma_child_nodes_of_toks(ls);
+    assert(ts[0] == (KEY, f.name));
+    assert(ls[0] == leaf(ts[0]));
+    assert(first_kind(ls, KEY) == Some(ls[0]));
+    // the VALUE tokens
+    let nl = seq![(NEWLINE, lf())];
+    let head = seq![(KEY, f.name), (COLON, colon())];
+    let a = leaves(head); let b = leaves(opt_tok(WHITESPACE, f.ws)); let c = leaves(opt_tok(VALUE, f.first)); let d = leaves(nl); let e = leaves(conts_toks(f.conts));
+    assert(ls =~= a + b + c + d + e);
+    lemma_kind_filter_add(a + b + c + d, e, VALUE);
+    lemma_kind_filter_add(a + b + c, d, VALUE);
+    lemma_kind_filter_add(a + b, c, VALUE);
+    lemma_kind_filter_add(a, b, VALUE);
+    assert forall|i: int| 0 <= i < a.len() implies rowan::tree_kind(#[trigger] a[i]) != VALUE by {}
+    lemma_kind_filter_none(a, VALUE);
+    assert forall|i: int| 0 <= i < b.len() implies rowan::tree_kind(#[trigger] b[i]) != VALUE by {}
+    lemma_kind_filter_none(b, VALUE);
+    assert forall|i: int| 0 <= i < d.len() implies rowan::tree_kind(#[trigger] d[i]) != VALUE by {}
+    lemma_kind_filter_none(d, VALUE);
+    assert forall|i: int| 0 <= i < c.len() implies rowan::tree_kind(#[trigger] c[i]) == VALUE by {}
+    lemma_kind_filter_all(c, VALUE);
+    lemma_conts_values(f.conts);
+    let e0 = Seq::<Tree>::empty();
+    assert(kind_filter(ls, VALUE) =~= c + kind_filter(e, VALUE)) by {
+        assert(e0 + e0 + c + e0 + kind_filter(e, VALUE) =~= c + kind_filter(e, VALUE));
+    }
+    assert(texts(c + kind_filter(e, VALUE)) =~= texts(c) + texts(kind_filter(e, VALUE)));
+    assert(texts(c) =~= if f.first.len() > 0 { seq![f.first] } else { Seq::<Seq<char>>::empty() });
+}
+
+// ---- a paragraph ----
+pub open spec fn entry_trees(fs: Seq<FieldM>) -> Seq<Tree> { fs.map_values(|f: FieldM| entry_tree(f)) }
+
+pub proof fn lemma_fields_entries(fs: Seq<FieldM>)
+    ensures rowan::child_nodes(fields_elems(fs)) == entry_trees(fs)
+    decreases fs.len()
+{
+    if fs.len() == 0 {
+        assert(rowan::child_nodes(fields_elems(fs)) =~= entry_trees(fs));
+    } else {
+        lemma_fields_entries(fs.skip(1));
+        let f = fs[0];
+        let lc = leaves(comments_toks(f.comments));
+        assert(all_toks(lc));
+        lemma_child_nodes_of_toks(lc);
+        assert(field_elems(f) =~= lc + seq![entry_tree(f)]);
+        assert(all_nodes(seq![entry_tree(f)]));
+        lemma_child_nodes_of_nodes(seq![entry_tree(f)]);
+        lemma_child_nodes_add(lc, seq![entry_tree(f)]);
+        lemma_child_nodes_add(field_elems(f), fields_elems(fs.skip(1)));
+        assert(Seq::<Tree>::empty() + seq![entry_tree(f)] + entry_trees(fs.skip(1)) =~= entry_trees(fs));
+    }
+}
+pub proof fn lemma_entries_items(fs: Seq<FieldM>)
+    ensures entries_items(entry_trees(fs)) == fs.map_values(|f: FieldM| (f.name, field_value(f)))
+    decreases fs.len()
+{
+    let es = entry_trees(fs);
+    if fs.len() == 0 {
+        assert(entries_items(es) =~= fs.map_values(|f: FieldM| (f.name, field_value(f))));
+    } else {
+        lemma_entries_items(fs.drop_last());
+        assert(es.drop_last() =~= entry_trees(fs.drop_last()));
+        assert(es.last() == entry_tree(fs.last()));
+        lemma_entry_tree(fs.last());
+        assert(entries_items(es) =~= fs.map_values(|f: FieldM| (f.name, field_value(f))));
+    }
+}
+pub proof fn lemma_para_tree(p: ParaM)
+    ensures rowan::tree_kind(para_tree(p)) == PARAGRAPH, t_items(para_tree(p)) == para_content(p)
+{
+    let ch = fields_elems(p.fields) + leaves(comments_toks(p.trailing));
+    let lt = leaves(comments_toks(p.trailing));
+    assert(all_toks(lt));
+    lemma_child_nodes_of_toks(lt);
+    lemma_child_nodes_add(fields_elems(p.fields), lt);
+    lemma_fields_entries(p.fields);
+    let es = entry_trees(p.fields);
+    assert(rowan::child_nodes(ch) =~= es);
+    assert forall|i: int| 0 <= i < es.len() implies rowan::tree_kind(#[trigger] es[i]) == ENTRY by {}
+    lemma_kind_filter_all(es, ENTRY);
+    lemma_entries_items(p.fields);
+}
+
+// ---- the document ----
+pub open spec fn para_trees(ps: Seq<ParaM>) -> Seq<Tree> { ps.map_values(|p: ParaM| para_tree(p)) }
+
+pub proof fn lemma_gap_trees_nodes(g: Seq<Option<Seq<char>>>)
+    ensures all_nodes(gap_trees(g)), kind_filter(gap_trees(g), PARAGRAPH) == Seq::<Tree>::empty()
+    decreases g.len()
+{
+    if g.len() > 0 {
+        lemma_gap_trees_nodes(g.skip(1));
+        lemma_kind_filter_add(seq![gap_line_tree(g[0])], gap_trees(g.skip(1)), PARAGRAPH);
+        lemma_kind_filter_single(gap_line_tree(g[0]), PARAGRAPH);
+        assert(Seq::<Tree>::empty() + Seq::<Tree>::empty() =~= Seq::<Tree>::empty());
+    }
+}
+pub proof fn lemma_paras_trees(ps: Seq<ParaM>)
+    ensures all_nodes(paras_trees(ps)), kind_filter(paras_trees(ps), PARAGRAPH) == para_trees(ps)
+    decreases ps.len()
+{
+    if ps.len() == 0 {
+        assert(kind_filter(paras_trees(ps), PARAGRAPH) =~= para_trees(ps));
+    } else {
+        lemma_paras_trees(ps.skip(1));
+        lemma_gap_trees_nodes(ps[0].gap);
+        let a = seq![para_tree(ps[0])];
+        let b = gap_trees(ps[0].gap);
+        lemma_kind_filter_add(a + b, paras_trees(ps.skip(1)), PARAGRAPH);
+        lemma_kind_filter_add(a, b, PARAGRAPH);
+        lemma_kind_filter_single(para_tree(ps[0]), PARAGRAPH);
+        assert(a + Seq::<Tree>::empty() + para_trees(ps.skip(1)) =~= para_trees(ps));
+    }
+}
+pub proof fn lemma_doc_tree(d: DocM)
+    ensures rowan::tree_kind(doc_tree(d)) == ROOT, t_content(doc_tree(d)) == doc_content(d)
+{
+    let ch = gap_trees(d.lead) + paras_trees(d.paras);
+    lemma_gap_trees_nodes(d.lead);
+    lemma_paras_trees(d.paras);
+    assert(all_nodes(ch));
+    lemma_child_nodes_of_nodes(ch);
+    lemma_kind_filter_add(gap_trees(d.lead), paras_trees(d.paras), PARAGRAPH);
+    assert(t_paragraphs(doc_tree(d)) =~= para_trees(d.paras));
+    assert forall|i: int| 0 <= i < d.paras.len() implies t_items(#[trigger] para_trees(d.paras)[i]) == para_content(d.paras[i]) by { lemma_para_tree(d.paras[i]); }
+    assert(t_content(doc_tree(d)) =~= doc_content(d));
+}
+
+// ---- lookups against the list model ----------------------------------------------------------------------------------
+pub proof fn lemma_entries_items_front(es: Seq<Tree>)
+    requires es.len() > 0
+    ensures entries_items(es) == (if t_key(es[0]) is Some { seq![(t_key(es[0])->Some_0, t_value(es[0]))] } else { Seq::<Pair>::empty() }) + entries_items(es.skip(1))
+    decreases es.len()
+{
+    let h = if t_key(es[0]) is Some { seq![(t_key(es[0])->Some_0, t_value(es[0]))] } else { Seq::<Pair>::empty() };
+    if es.len() == 1 {
+        assert(es.drop_last() =~= Seq::<Tree>::empty());
+        assert(es.skip(1) =~= Seq::<Tree>::empty());
+        assert(es.last() == es[0]);
+        assert(entries_items(es) =~= h + entries_items(es.skip(1)));
+    } else {
+        lemma_entries_items_front(es.drop_last());
+        assert(es.drop_last().skip(1) =~= es.skip(1).drop_last());
+        assert(es.skip(1).last() == es.last());
+        assert(es.drop_last()[0] == es[0]);
+        assert(entries_items(es) =~= h + entries_items(es.skip(1)));
+    }
+}
+/// "the first field of that name": the lookup by name is list_get on the (name, value) list
+pub proof fn lemma_entries_get_is_list_get(es: Seq<Tree>, key: Seq<char>)
+    ensures entries_get(es, key) == list_get(entries_items(es), key)
+    decreases es.len()
+{
+    if es.len() == 0 {
+        assert(entries_items(es) =~= Seq::<Pair>::empty());
+    } else {
+        lemma_entries_get_is_list_get(es.skip(1), key);
+        lemma_entries_items_front(es);
+        let l = entries_items(es);
+        let r = entries_items(es.skip(1));
+        if t_key(es[0]) is Some {
+            let h = (t_key(es[0])->Some_0, t_value(es[0]));
+            assert(l =~= seq![h] + r);
+            assert(l[0] == h);
+            assert(l.skip(1) =~= r);
+            lemma_first_idx(r, key);
+            if h.0 == key {
+                assert(first_idx(l, key) == 0);
+            } else {
+                let i = first_idx(r, key);
+                assert(first_idx(l, key) == if i < 0 { -1 } else { i + 1 });
+                if i >= 0 { assert(l[i + 1] == r[i]); }
+                assert(t_key(es[0]) != Some(key));
+            }
+        } else {
+            assert(l =~= r);
+        }
+    }
+}
+
+// ---- the theorem --------------------------------------------------------------------------------------------------------
+/// C03, acceptance clause: the strict reader accepts every well-formed document without error, and the tree it
+/// builds exposes exactly the document's paragraphs, field names in file order and values
+pub proof fn theorem_wellformed_accepted(d: DocM)
+    requires wf_doc(d)
+    ensures
+        parse_text(doc_text(d)).1 == 0,
+        rowan::tree_kind(parse_text(doc_text(d)).0) == ROOT,
+        t_content(parse_text(doc_text(d)).0) == doc_content(d),
+{
+    lemma_parse_doc(d);
+    lemma_doc_tree(d);
+}
